@@ -217,9 +217,10 @@ func (v *visitor) BinaryNode(node *ast.BinaryNode) reflect.Type {
 			return boolType
 		}
 		if isMap(r) {
-			return boolType
-		}
-		if isArray(r) {
+			if keyFits(r, l) {
+				return boolType
+			}
+		} else if isArray(r) {
 			return boolType
 		}
 
@@ -298,11 +299,14 @@ func (v *visitor) IndexNode(node *ast.IndexNode) reflect.Type {
 	t := v.visit(node.Node)
 	i := v.visit(node.Index)
 
-	if t, ok := indexType(t); ok {
+	if elem, ok := indexType(t); ok {
 		if !isInteger(i) && !isString(i) {
+			return v.error(node, "invalid operation: cannot use %v as index to %v", i, elem)
+		}
+		if !keyFits(t, i) {
 			return v.error(node, "invalid operation: cannot use %v as index to %v", i, t)
 		}
-		return t
+		return elem
 	}
 
 	return v.error(node, "invalid operation: type %v does not support indexing", t)
